@@ -781,6 +781,17 @@ class C11(FsScenario):
                 kept, _ = fm.revalidate(case["pre"], case["ops"] + extra, paced=True, paced_out=self.paced_out)
                 if len(kept) == len(case["ops"]) + len(extra):
                     case["ops"] = kept
+        if drng.random() < 0.06:
+            # directed: one name is moved away twice with nothing in between that a narrow kernel mask lets through
+            # (the kernel merges equal consecutive events without looking at the cookie)
+            x, y = drng.sample(["a", "b", "c"], 2)
+            case["pre"] = [["mkfile", f"root/{x}"]]
+            case["ops"] = [["moveout", f"root/{x}", "o1"], ["mkfile", f"root/{x}"], ["rename", f"root/{x}", f"root/{y}"]] + ([["drain"]] if drng.random() < 0.5 else [])
+            case["paced"] = False
+            case.pop("unpaced", None)
+            case["watch"]["recursive"] = drng.random() < 0.3
+            case["watch"].pop("nested", None)
+            case["watch"]["twin_filter"] = drng.choice([["FileMovedEvent"], ["FileSystemMovedEvent"], ["FileModifiedEvent", "FileSystemMovedEvent"], ["FileMovedEvent", "FileDeletedEvent"], ["DirModifiedEvent", "FileMovedEvent"]])
         orng = random.Random(f"{seed}:other-filter")
         if orng.random() < 0.35:
             # a bystander: a third watch on the same directory with another filter (filters are per watch, not per observer)
